@@ -103,6 +103,10 @@ enum Attempt {
     RecvFails(String),
     /// The send failed individually or was cancelled: nothing, or at most one non-final error.
     SenderFailed(String),
+    /// The send future was dropped, or has not returned yet: nothing, one non-final error, or — when
+    /// everything had been transmitted already (streamed items: the future still waits for its
+    /// serialisation thread) — the complete value.
+    Unfinished(Item),
 }
 
 #[derive(Clone, Debug, PartialEq)]
@@ -115,6 +119,8 @@ enum Event {
 struct FlowState {
     id: u32,
     attempts: Vec<Attempt>,
+    /// Item of the send call that has not returned yet.
+    in_flight: Option<Item>,
     events: Vec<Event>,
     sender_done: bool,
     sender_final_error: Option<String>,
@@ -125,7 +131,7 @@ struct FlowState {
 fn matches(a: &[Attempt], r: &[Event], complete: bool) -> bool {
     fn go(a: &[Attempt], r: &[Event], complete: bool) -> bool {
         if r.is_empty() {
-            return !complete || a.iter().all(|x| matches!(x, Attempt::SenderFailed(_)));
+            return !complete || a.iter().all(|x| matches!(x, Attempt::SenderFailed(_) | Attempt::Unfinished(_)));
         }
         let Some((first, rest)) = a.split_first() else { return false };
         match first {
@@ -133,6 +139,11 @@ fn matches(a: &[Attempt], r: &[Event], complete: bool) -> bool {
             Attempt::RecvFails(_) => matches!(&r[0], Event::Err(_)) && go(rest, &r[1..], complete),
             Attempt::SenderFailed(_) => {
                 go(rest, r, complete) || (matches!(&r[0], Event::Err(_)) && go(rest, &r[1..], complete))
+            }
+            Attempt::Unfinished(v) => {
+                go(rest, r, complete)
+                    || (matches!(&r[0], Event::Err(_)) && go(rest, &r[1..], complete))
+                    || (matches!(&r[0], Event::Ok(w) if w == v) && go(rest, &r[1..], complete))
             }
         }
     }
@@ -142,6 +153,16 @@ fn matches(a: &[Attempt], r: &[Event], complete: bool) -> bool {
 fn diagnose(f: &FlowState, complete: bool) -> Option<(&'static str, String)> {
     if matches(&f.attempts, &f.events, complete) {
         return None;
+    }
+    // The send call in progress may already have transmitted its item completely.
+    if !complete
+        && let Some(v) = &f.in_flight
+    {
+        let mut a = f.attempts.clone();
+        a.push(Attempt::Unfinished(v.clone()));
+        if matches(&a, &f.events, false) {
+            return None;
+        }
     }
     // While a send is still in progress (or was cut off by a connection failure) the receiver may
     // already have reported the error for that item: one trailing error may be unexplained.
@@ -180,6 +201,7 @@ fn diagnose(f: &FlowState, complete: bool) -> Option<(&'static str, String)> {
                 Attempt::Deliver(v) => format!("ok:{}", v.short()),
                 Attempt::RecvFails(s) => format!("ok-but-receiver-must-fail:{s}"),
                 Attempt::SenderFailed(s) => format!("failed:{s}"),
+                Attempt::Unfinished(v) => format!("cancelled:{}", v.short()),
             })
             .collect::<Vec<_>>()
             .join(", "),
@@ -251,7 +273,10 @@ async fn sender_actor(flow: Arc<Mutex<FlowState>>, mut tx: base::Sender<Item>, o
             Op::Pause(us) => tokio::time::sleep(Duration::from_micros(us as u64)).await,
             Op::Send(item) => {
                 let keep = item.clone();
-                match tx.send(item).await {
+                flow.lock().unwrap().in_flight = Some(keep.clone());
+                let res = tx.send(item).await;
+                flow.lock().unwrap().in_flight = None;
+                match res {
                     Ok(()) => {
                         kit::seq();
                         flow.lock().unwrap().attempts.push(classify_ok(&keep));
@@ -271,7 +296,10 @@ async fn sender_actor(flow: Arc<Mutex<FlowState>>, mut tx: base::Sender<Item>, o
             }
             Op::CancelSend(item, k) => {
                 let keep = item.clone();
-                match kit::cancel_after(tx.send(item), k).await {
+                flow.lock().unwrap().in_flight = Some(keep.clone());
+                let res = kit::cancel_after(tx.send(item), k).await;
+                flow.lock().unwrap().in_flight = None;
+                match res {
                     Some(Ok(())) => {
                         kit::seq();
                         flow.lock().unwrap().attempts.push(classify_ok(&keep));
@@ -285,7 +313,7 @@ async fn sender_actor(flow: Arc<Mutex<FlowState>>, mut tx: base::Sender<Item>, o
                     }
                     None => {
                         kit::fault_fired("cancel_send");
-                        flow.lock().unwrap().attempts.push(Attempt::SenderFailed(format!("{}: cancelled", keep.short())));
+                        flow.lock().unwrap().attempts.push(Attempt::Unfinished(keep));
                     }
                 }
             }
